@@ -272,13 +272,17 @@ def macros(s, settled):
         tr = "; ".join("(%d, %s)" % (v, TRAP[kind]) for v in s["victims"])
         m += ["MCall %d %d [%s]" % (n, burst, tr), "MRounds %d" % R]
     elif kind in ("idle_settled", "idle_unsettled"):
-        m += ["MKillIdle %d" % j for j in s["victims"]] + (["MMgr 3"] if settled else []) + ok_call
+        m += ["MKillIdle %d" % j for j in s["victims"]] + (["MMgr 3"] if settled is True else []) + ok_call
     elif kind == "startup_gen":
         m += ["MCall %d 0 []" % n] + ["MKillIdle %d" % j for j in s["victims"]] + ["MDispatch %d" % burst, "MRounds %d" % R]
     elif kind == "startup_reduce":
         m += ["MCall %d %d []" % (n, burst)] + ["MKillIdle %d" % j for j in s["victims"]] + ["MRounds %d" % R]
     else:
         m += ok_call
+    if settled == "late":
+        # the death is masked by the results that keep arriving and is only handled after call 1 returned
+        # (wait_result_broken_or_wakeup looks at the result pipe first): same as an idle death after call 1
+        m = (["MWithEnter"] if s["managed"] else []) + ok_call + ok_call + ["MKillIdle %d" % j for j in s["victims"]] + ["MMgr 3"]
     m += ok_call + ok_call
     return "show (drive %d %d [%s])" % (nj, 2 * common.NCPU + 1, "; ".join(m))
 
@@ -292,12 +296,14 @@ def parse_show(v):
 
 
 def model_predictions(ctx, scenarios, results):
-    """for every scenario the set of admissible model outcomes (one, or two when the real run leaves a
-    genuine race open: idle death not awaited)"""
+    """for every scenario the set of admissible model outcomes (one, or several when the real run leaves a
+    genuine race open: idle death not awaited; death at start-up masked by results that keep arriving)"""
     exprs, owner = [], []
     for i, (s, r) in enumerate(zip(scenarios, results)):
         if s["kind"] == "idle_unsettled":
-            variants = [True, False]
+            variants = [True, False, "late"]
+        elif s["kind"] in ("startup_gen", "startup_reduce"):
+            variants = [True, "late"]
         elif s["kind"] == "idle_settled":
             variants = [bool(r.get("noticed"))]
         else:
